@@ -27,19 +27,19 @@ Open Scope string_scope.
 Open Scope nat_scope.
 
 (* ---- values the evaluator passes around ---- *)
-Inductive rnode :=
+Inductive rval :=
   | RNode (n : node)                       (* a node of the loaded document *)
-  | RList (l : list rnode)                 (* a Python list built by the evaluator *)
-  | RCoords (nd : rnode) (par : option rnode) (ref : option pyval)
-            (path : string) (anc : list (rnode * pyval)).   (* a NodeCoords *)
+  | RList (l : list rval)                 (* a Python list built by the evaluator *)
+  | RCoords (nd : rval) (par : option rval) (ref : option pyval)
+            (path : string) (anc : list (rval * pyval)).   (* a NodeCoords *)
 
 (* evaluation context = the keyword arguments threaded through the handlers *)
 Record ctx := mkctx {
-  x_par : option rnode;          (* parent *)
+  x_par : option rval;          (* parent *)
   x_ref : option pyval;          (* parentref *)
   x_tl : bool;                   (* traverse_lists *)
   x_tp : string;                 (* translated_path.original *)
-  x_anc : list (rnode * pyval)   (* ancestry *)
+  x_anc : list (rval * pyval)   (* ancestry *)
 }.
 
 (* ---- generators as streams ---- *)
@@ -214,12 +214,12 @@ Definition tp_add (tp sg : string) : string :=
   end.
 Definition esc_sec (txt : string) (tp : string) : string := escape_path_section txt (tp_sepc tp).
 
-Definition is_pylist (v : rnode) : bool :=
+Definition is_pylist (v : rval) : bool :=
   match v with RList _ | RNode (NSeq _ _) => true | _ => false end.
-Definition is_pydict (v : rnode) : bool := match v with RNode (NMap _ _) => true | _ => false end.
-Definition is_pynone (v : rnode) : bool := match v with RNode (NLeaf _ PNone) => true | _ => false end.
+Definition is_pydict (v : rval) : bool := match v with RNode (NMap _ _) => true | _ => false end.
+Definition is_pynone (v : rval) : bool := match v with RNode (NLeaf _ PNone) => true | _ => false end.
 
-Definition elems (v : rnode) : list rnode :=
+Definition elems (v : rval) : list rval :=
   match v with
   | RNode (NSeq _ els) => map RNode els
   | RList l => l
@@ -229,14 +229,14 @@ Definition elems (v : rnode) : list rnode :=
 Definition key_val (k : node) : pyval := match k with NLeaf _ v => v | _ => PNone end.
 
 (* key in data / data[key] for a mapping node *)
-Definition dict_get (k : pyval) (v : rnode) : option node :=
+Definition dict_get (k : pyval) (v : rval) : option node :=
   match v with RNode (NMap _ kvs) => assoc_key k kvs | _ => None end.
 
 (* hasattr(x, "anchor") and name == x.anchor.value *)
 Definition node_anchor_is (name : string) (n : node) : bool :=
   has_anchor_attr (node_info n) &&
   match anchor (node_info n) with Some a => String.eqb name a | None => false end.
-Definition anchor_is (name : string) (v : rnode) : bool :=
+Definition anchor_is (name : string) (v : rval) : bool :=
   match v with RNode n => node_anchor_is name n | _ => false end.
 
 (* the value a segment's attributes compare as *)
@@ -250,19 +250,19 @@ Definition attr_val (a : attrs) : pyval :=
 
 Definition is_ty (t : segtype) (o : option segtype) : bool := is_stype t o.
 
-Definition coords (nd : rnode) (par : option rnode) (rf : option pyval) (path : string)
-           (anc : list (rnode * pyval)) : rnode := RCoords nd par rf path anc.
+Definition ncoords (nd : rval) (par : option rval) (rf : option pyval) (path : string)
+           (anc : list (rval * pyval)) : rval := RCoords nd par rf path anc.
 
 Definition xorb_cond (matches inv : bool) : bool := (matches && negb inv) || (inv && negb matches).
 
 (* NodeCoords.node ; AttributeError on anything that is not a NodeCoords *)
-Definition cnode (x : rnode) : outcome rnode :=
+Definition cnode (x : rval) : outcome rval :=
   match x with RCoords nd _ _ _ _ => Ok nd | _ => Raise (PyCrash AttributeError) end.
 
-Fixpoint vsize (v : rnode) : nat :=
+Fixpoint vsize (v : rval) : nat :=
   match v with
   | RNode n => node_size n
-  | RList l => S ((fix go (l : list rnode) := match l with [] => 0 | x :: r => vsize x + go r end) l)
+  | RList l => S ((fix go (l : list rval) := match l with [] => 0 | x :: r => vsize x + go r end) l)
   | RCoords nd _ _ _ _ => S (vsize nd)
   end.
 
@@ -270,25 +270,27 @@ Section Eval.
 Variable lit : string -> outcome litres.
 Variable re_search : string -> string -> outcome reres.
 Variable nstr : node -> string.          (* str() of a ruamel container *)
-Variable vstr : list rnode -> string.    (* str() of a list built by the evaluator *)
+Variable vstr : list rval -> string.    (* str() of a list built by the evaluator *)
 (* KeywordSearches.search_matches(terms, data, yaml_path, **kwargs) *)
-Variable kw_handler : bool -> keyword -> string -> rnode -> ctx -> gen rnode.
+Variable kw_handler : bool -> keyword -> string -> rval -> ctx -> gen rval.
 (* the node-creating branches of _get_optional_nodes *)
-Variable creator : list pseg -> nat -> rnode -> ctx -> gen rnode.
+Variable creator : list pseg -> nat -> rval -> ctx -> gen rval.
 
-(* what Searches.search_matches sees of a haystack *)
-Fixpoint hay (v : rnode) : pyval :=
+(* what Searches.search_matches sees of a haystack (an anchored YAML boolean
+   is ruamel's ScalarBoolean: Doc.is_sbool) *)
+Fixpoint haystack_of (v : rval) : hay :=
   match v with
-  | RNode (NLeaf _ x) => x
-  | RNode n => POther (nstr n)
-  | RList l => POther (vstr l)
-  | RCoords nd _ _ _ _ => hay nd
+  | RNode (NLeaf i x as n) =>
+      if is_sbool n then HSBool (match x with PInt z => negb (Z.eqb z 0) | _ => false end) else HVal x
+  | RNode n => HVal (POther (nstr n))
+  | RList l => HVal (POther (vstr l))
+  | RCoords nd _ _ _ _ => haystack_of nd
   end.
-Definition sm (m : smethod) (term : string) (v : rnode) : outcome bool :=
-  search_matches lit re_search m term (hay v).
+Definition esm (m : smethod) (term : string) (v : rval) : outcome bool :=
+  search_matches_h lit re_search m term (haystack_of v).
 
 (* ---- _get_nodes_by_key (processor.py:936-1056) ---- *)
-Definition by_key (self : rnode -> ctx -> gen rnode) (a : attrs) (v : rnode) (c : ctx) : gen rnode :=
+Definition by_key (self : rval -> ctx -> gen rval) (a : attrs) (v : rval) (c : ctx) : gen rval :=
   let str_stripped := attrs_str a in
   let kv := attr_val a in
   let tp := x_tp c in
@@ -297,12 +299,12 @@ Definition by_key (self : rnode -> ctx -> gen rnode) (a : attrs) (v : rnode) (c 
   | RNode (NMap _ kvs) =>
       let ntp := tp_add tp (esc_sec str_stripped tp) in
       match assoc_key kv kvs with
-      | Some val => gone (coords (RNode val) (Some v) (Some kv) ntp (anc ++ [(v, kv)])%list)
+      | Some val => gone (ncoords (RNode val) (Some v) (Some kv) ntp (anc ++ [(v, kv)])%list)
       | None =>
           match py_int str_stripped with
           | Some z =>
               match assoc_key (PInt z) kvs with
-              | Some val => gone (coords (RNode val) (Some v) (Some (PInt z)) ntp (anc ++ [(v, PInt z)])%list)
+              | Some val => gone (ncoords (RNode val) (Some v) (Some (PInt z)) ntp (anc ++ [(v, PInt z)])%list)
               | None => gnil
               end
           | None => gnil
@@ -311,7 +313,7 @@ Definition by_key (self : rnode -> ctx -> gen rnode) (a : attrs) (v : rnode) (c 
   | RNode (NSet _ els) =>
       match find (fun e => py_eq (key_val e) kv) els with
       | Some e =>
-          gone (coords (RNode e) (Some v) (Some kv) (tp_add tp (esc_sec (py_str (key_val e)) tp))
+          gone (ncoords (RNode e) (Some v) (Some kv) (tp_add tp (esc_sec (py_str (key_val e)) tp))
                        (anc ++ [(v, key_val e)])%list)
       | None => gnil
       end
@@ -323,7 +325,7 @@ Definition by_key (self : rnode -> ctx -> gen rnode) (a : attrs) (v : rnode) (c 
           let n := Z.of_nat (List.length els) in
           if ((- n <=? idx)%Z && (idx <? n)%Z)%bool then
             glift (py_nth els idx) (fun e =>
-              gone (coords e (Some v) (Some (PInt idx)) (tp_add tp (idx_text idx)) (anc ++ [(v, PInt idx)])%list))
+              gone (ncoords e (Some v) (Some (PInt idx)) (tp_add tp (idx_text idx)) (anc ++ [(v, PInt idx)])%list))
           else gnil
       | None =>
           if negb (x_tl c) then gnil
@@ -340,7 +342,7 @@ Definition by_key (self : rnode -> ctx -> gen rnode) (a : attrs) (v : rnode) (c 
 Definition split_colon (s : string) : (string * string) :=
   let p := index_char ":"%char s in (take p s, drop (S p) s).
 
-Definition by_index (a : attrs) (v : rnode) (c : ctx) : gen rnode :=
+Definition by_index (a : attrs) (v : rval) (c : ctx) : gen rval :=
   let str_stripped := attrs_str a in
   let tp := x_tp c in
   let anc := x_anc c in
@@ -351,14 +353,14 @@ Definition by_index (a : attrs) (v : rnode) (c : ctx) : gen rnode :=
         gfor kvs (fun kv =>
           let k := key_val (fst kv) in
           if str_leb min_match (py_str k) && str_leb (py_str k) max_match then
-            gone (coords (RNode (snd kv)) (Some v) (Some k) (tp_add tp (esc_sec (py_str k) tp))
+            gone (ncoords (RNode (snd kv)) (Some v) (Some k) (tp_add tp (esc_sec (py_str k) tp))
                          (anc ++ [(v, k)])%list)
           else gnil)
     | RNode (NSet _ els) =>
         gfor els (fun e =>
           let k := key_val e in
           if str_leb min_match (py_str k) && str_leb (py_str k) max_match then
-            gone (coords (RNode e) (Some v) (Some k) (tp_add tp (esc_sec (py_str k) tp))
+            gone (ncoords (RNode e) (Some v) (Some k) (tp_add tp (esc_sec (py_str k) tp))
                          (anc ++ [(v, k)])%list)
           else gnil)
     | RNode (NLeaf _ _) | RCoords _ _ _ _ _ => gnil
@@ -369,18 +371,18 @@ Definition by_index (a : attrs) (v : rnode) (c : ctx) : gen rnode :=
             let n := Z.of_nat (List.length els) in
             if ((intmin =? intmax)%Z && (- n <=? intmin)%Z && (intmin <? n)%Z)%bool then
               glift (py_nth els intmin) (fun e =>
-                gone (coords (RList [e]) (Some v) (Some (PInt intmin)) (tp_add tp (idx_text intmin))
+                gone (ncoords (RList [e]) (Some v) (Some (PInt intmin)) (tp_add tp (idx_text intmin))
                              (anc ++ [(v, PInt intmin)])%list))
             else
               let '(lo, hi) := slice_bounds intmin intmax (List.length els) in
               glift (mapM (fun si =>
                              let zi := Z.of_nat si in
                              do e <- py_nth els zi;
-                             Ok (coords e (Some v) (Some (PInt intmin)) (tp_add tp (idx_text zi))
+                             Ok (ncoords e (Some v) (Some (PInt intmin)) (tp_add tp (idx_text zi))
                                         (anc ++ [(v, PInt zi)])%list))
                           (range lo hi))
                     (fun sliced =>
-                       gone (coords (RList sliced) (Some v) (Some (PInt intmin))
+                       gone (ncoords (RList sliced) (Some v) (Some (PInt intmin))
                                     (tp_add tp ("[" ++ str_of_Z intmin ++ ":" ++ str_of_Z intmax ++ "]"))
                                     (anc ++ [(v, PInt intmin)])%list))
         | _, _ => gerr (YPE TypeMismatch)
@@ -395,7 +397,7 @@ Definition by_index (a : attrs) (v : rnode) (c : ctx) : gen rnode :=
           let n := Z.of_nat (List.length els) in
           if ((- n <=? idx)%Z && (idx <? n)%Z)%bool then
             glift (py_nth els idx) (fun e =>
-              gone (coords e (Some v) (Some (PInt idx)) (tp_add tp (idx_text idx)) (anc ++ [(v, PInt idx)])%list))
+              gone (ncoords e (Some v) (Some (PInt idx)) (tp_add tp (idx_text idx)) (anc ++ [(v, PInt idx)])%list))
           else gnil
         else match v with
              | RNode (NSet _ _) => gerr (YPE Generic)
@@ -405,7 +407,7 @@ Definition by_index (a : attrs) (v : rnode) (c : ctx) : gen rnode :=
 
 (* ---- _get_nodes_by_anchor (processor.py:1174-1264); YAML merge keys are
    outside the modelled documents ---- *)
-Definition by_anchor (a : attrs) (v : rnode) (c : ctx) : gen rnode :=
+Definition by_anchor (a : attrs) (v : rval) (c : ctx) : gen rval :=
   let name := attrs_str a in
   let tp := x_tp c in
   let anc := x_anc c in
@@ -415,12 +417,12 @@ Definition by_anchor (a : attrs) (v : rnode) (c : ctx) : gen rnode :=
       gfor kvs (fun kv =>
         let k := key_val (fst kv) in
         if node_anchor_is name (fst kv) || node_anchor_is name (snd kv) then
-          gone (coords (RNode (snd kv)) (Some v) (Some k) ntp (anc ++ [(v, k)])%list)
+          gone (ncoords (RNode (snd kv)) (Some v) (Some k) ntp (anc ++ [(v, k)])%list)
         else gnil)
   | RNode (NSet _ els) =>
       gfor els (fun e =>
         if node_anchor_is name e then
-          gone (coords (RNode e) (Some v) (Some (key_val e)) ntp (anc ++ [(v, key_val e)])%list)
+          gone (ncoords (RNode e) (Some v) (Some (key_val e)) ntp (anc ++ [(v, key_val e)])%list)
         else gnil)
   | RNode (NLeaf _ _) | RCoords _ _ _ _ _ => gnil
   | _ =>
@@ -428,25 +430,25 @@ Definition by_anchor (a : attrs) (v : rnode) (c : ctx) : gen rnode :=
         let '(i, e) := ie in
         let zi := Z.of_nat i in
         if anchor_is name e then
-          gone (coords e (Some v) (Some (PInt zi)) ntp (anc ++ [(v, PInt zi)])%list)
+          gone (ncoords e (Some v) (Some (PInt zi)) ntp (anc ++ [(v, PInt zi)])%list)
         else gnil)
   end.
 
 (* ---- _get_nodes_by_search (processor.py:1309-1509) ---- *)
 (* the descendant loop over a hash: scan until the verdict satisfies the
    (possibly inverted) condition; `matches` keeps its last value *)
-Fixpoint desc_scan {B} (m : smethod) (term : string) (inv : bool) (items : list rnode) (st : stop)
+Fixpoint hash_desc_scan {B} (m : smethod) (term : string) (inv : bool) (items : list rval) (st : stop)
          (matches : bool) (k : bool -> gen B) : gen B :=
   match items with
   | [] => match st with Done => k matches | _ => ([], st) end
   | d :: r =>
       glift (cnode d) (fun nd =>
-        glift (sm m term nd) (fun mt =>
-          if xorb_cond mt inv then k mt else desc_scan m term inv r st mt k))
+        glift (esm m term nd) (fun mt =>
+          if xorb_cond mt inv then k mt else hash_desc_scan m term inv r st mt k))
   end.
 
-Definition by_search (rq_sub : rnode -> ctx -> gen rnode)
-           (inv : bool) (m : smethod) (attr term : string) (v : rnode) (c : ctx) : gen rnode :=
+Definition by_search (rq_sub : rval -> ctx -> gen rval)
+           (inv : bool) (m : smethod) (attr term : string) (v : rval) (c : ctx) : gen rval :=
   let tp := x_tp c in
   let anc := x_anc c in
   match v with
@@ -454,35 +456,35 @@ Definition by_search (rq_sub : rnode -> ctx -> gen rnode)
       if String.eqb attr "." then
         gfor kvs (fun kv =>
           let k := key_val (fst kv) in
-          glift (sm m term (RNode (fst kv))) (fun mt =>
+          glift (esm m term (RNode (fst kv))) (fun mt =>
             if xorb_cond mt inv then
-              gone (coords (RNode (snd kv)) (Some v) (Some k) (tp_add tp (esc_sec (py_str k) tp))
+              gone (ncoords (RNode (snd kv)) (Some v) (Some k) (tp_add tp (esc_sec (py_str k) tp))
                            (anc ++ [(v, k)])%list)
             else gnil))
       else
         match assoc_key (PStr attr) kvs with
         | Some value =>
-            glift (sm m term (RNode value)) (fun mt =>
+            glift (esm m term (RNode value)) (fun mt =>
               if xorb_cond mt inv then
-                gone (coords (RNode value) (Some v) (Some (PStr attr)) (tp_add tp (esc_sec attr tp))
+                gone (ncoords (RNode value) (Some v) (Some (PStr attr)) (tp_add tp (esc_sec attr tp))
                              (anc ++ [(v, PStr attr)])%list)
               else gnil)
         | None =>
             let g := rq_sub v (mkctx (x_par c) (x_ref c) true tp anc) in
-            desc_scan m term inv (fst g) (snd g) false (fun mt =>
-              if xorb_cond mt inv then gone (coords v (x_par c) (x_ref c) tp anc) else gnil)
+            hash_desc_scan m term inv (fst g) (snd g) false (fun mt =>
+              if xorb_cond mt inv then gone (ncoords v (x_par c) (x_ref c) tp anc) else gnil)
         end
   | RNode (NSet _ els) =>
       gfor els (fun e =>
         let k := key_val e in
-        glift (sm m term (RNode e)) (fun mt =>
+        glift (esm m term (RNode e)) (fun mt =>
           if xorb_cond mt inv then
-            gone (coords (RNode e) (Some v) (Some k) (tp_add tp (esc_sec (py_str k) tp))
+            gone (ncoords (RNode e) (Some v) (Some k) (tp_add tp (esc_sec (py_str k) tp))
                          (anc ++ [(v, k)])%list)
           else gnil))
   | RNode (NLeaf _ _) | RCoords _ _ _ _ _ =>
-      glift (sm m term v) (fun mt =>
-        if xorb_cond mt inv then gone (coords v (x_par c) (x_ref c) tp anc) else gnil)
+      glift (esm m term v) (fun mt =>
+        if xorb_cond mt inv then gone (ncoords v (x_par c) (x_ref c) tp anc) else gnil)
   | _ =>
       if negb (x_tl c) then gnil
       else
@@ -494,50 +496,50 @@ Definition by_search (rq_sub : rnode -> ctx -> gen rnode)
           let zi := Z.of_nat i in
           let yield_if := fun (mt : bool) =>
             if xorb_cond mt inv then
-              gone (coords e (Some v) (Some (PInt zi)) (tp_add tp (idx_text zi)) (anc ++ [(v, PInt zi)])%list)
+              gone (ncoords e (Some v) (Some (PInt zi)) (tp_add tp (idx_text zi)) (anc ++ [(v, PInt zi)])%list)
             else gnil in
           if search_keys then
             if is_aoh && negb (is_pynone e)
                && match dict_get (PStr term) e with Some _ => true | None => false end
             then yield_if true
-            else glift (sm m term e) yield_if
+            else glift (esm m term e) yield_if
           else
             match dict_get (PStr attr) e with
-            | Some x => glift (sm m term (RNode x)) yield_if
+            | Some x => glift (esm m term (RNode x)) yield_if
             | None =>
                 gfirst (rq_sub e (mkctx None None true (tp_add tp (idx_text zi)) (anc ++ [(v, PInt zi)])%list))
                   (fun f =>
                      match f with
-                     | Some d => glift (cnode d) (fun nd => glift (sm m term nd) yield_if)
+                     | Some d => glift (cnode d) (fun nd => glift (esm m term nd) yield_if)
                      | None => yield_if false
                      end)
             end)
   end.
 
 (* ---- _get_nodes_by_match_all (processor.py:2005-2241) ---- *)
-Definition match_all_unfiltered (v : rnode) (c : ctx) : gen rnode :=
+Definition match_all_unfiltered (v : rval) (c : ctx) : gen rval :=
   let tp := x_tp c in
   let anc := x_anc c in
   match v with
   | RNode (NMap _ kvs) =>
       gfor kvs (fun kv =>
         let k := key_val (fst kv) in
-        gone (coords (RNode (snd kv)) (Some v) (Some k) (tp_add tp (esc_sec (py_str k) tp))
+        gone (ncoords (RNode (snd kv)) (Some v) (Some k) (tp_add tp (esc_sec (py_str k) tp))
                      (anc ++ [(v, k)])%list))
   | RNode (NSet _ els) =>
       gfor els (fun e =>
         let k := key_val e in
-        gone (coords (RNode e) (Some v) (Some k) (tp_add tp (esc_sec (py_str k) tp))
+        gone (ncoords (RNode e) (Some v) (Some k) (tp_add tp (esc_sec (py_str k) tp))
                      (anc ++ [(v, k)])%list))
   | RNode (NLeaf _ _) | RCoords _ _ _ _ _ => gnil
   | _ =>
       gfor (enumerate (elems v)) (fun ie =>
         let '(i, e) := ie in
         let zi := Z.of_nat i in
-        gone (coords e (Some v) (Some (PInt zi)) (tp_add tp (idx_text zi)) (anc ++ [(v, PInt zi)])%list))
+        gone (ncoords e (Some v) (Some (PInt zi)) (tp_add tp (idx_text zi)) (anc ++ [(v, PInt zi)])%list))
   end.
 
-Definition match_all_filtered (sg_next : rnode -> ctx -> gen rnode) (v : rnode) (c : ctx) : gen rnode :=
+Definition match_all_filtered (sg_next : rval -> ctx -> gen rval) (v : rval) (c : ctx) : gen rval :=
   let tp := x_tp c in
   let anc := x_anc c in
   match v with
@@ -548,7 +550,7 @@ Definition match_all_filtered (sg_next : rnode -> ctx -> gen rnode) (v : rnode) 
         let nanc := (anc ++ [(v, k)])%list in
         gfirst (sg_next (RNode (snd kv)) (mkctx (Some v) (Some k) true ntp nanc)) (fun f =>
           match f with
-          | Some _ => gone (coords (RNode (snd kv)) (Some v) (Some k) ntp nanc)
+          | Some _ => gone (ncoords (RNode (snd kv)) (Some v) (Some k) ntp nanc)
           | None => gnil
           end))
   | RNode (NLeaf _ _) | RNode (NSet _ _) | RCoords _ _ _ _ _ => gnil
@@ -560,19 +562,19 @@ Definition match_all_filtered (sg_next : rnode -> ctx -> gen rnode) (v : rnode) 
         let nanc := (anc ++ [(v, PInt zi)])%list in
         gfirst (sg_next e (mkctx (Some v) (Some (PInt zi)) true ntp nanc)) (fun f =>
           match f with
-          | Some _ => gone (coords e (Some v) (Some (PInt zi)) ntp nanc)
+          | Some _ => gone (ncoords e (Some v) (Some (PInt zi)) ntp nanc)
           | None => gnil
           end))
   end.
 
 (* ---- _get_nodes_by_traversal (processor.py:1833-2003) ---- *)
-Fixpoint trav (tf : nat) (last : bool) (sg_next : rnode -> ctx -> gen rnode) (v : rnode) (c : ctx) : gen rnode :=
+Fixpoint trav (tf : nat) (last : bool) (sg_next : rval -> ctx -> gen rval) (v : rval) (c : ctx) : gen rval :=
   match tf with
   | O => gfuel
   | S tf' =>
       let tp := x_tp c in
       let anc := x_anc c in
-      let kids : gen rnode :=
+      let kids : gen rval :=
         match v with
         | RNode (NMap _ kvs) =>
             gfor kvs (fun kv =>
@@ -589,17 +591,17 @@ Fixpoint trav (tf : nat) (last : bool) (sg_next : rnode -> ctx -> gen rnode) (v 
         end in
       if last then
         match v with
-        | RNode (NLeaf _ _) | RCoords _ _ _ _ _ => gone (coords v (x_par c) (x_ref c) tp anc)
+        | RNode (NLeaf _ _) | RCoords _ _ _ _ _ => gone (ncoords v (x_par c) (x_ref c) tp anc)
         | RNode (NSet _ els) =>
             gfor els (fun e =>
               let k := key_val e in
-              gone (coords (RNode e) (Some v) (Some k) (tp_add tp (esc_sec (py_str k) tp)) (anc ++ [(v, k)])%list))
+              gone (ncoords (RNode e) (Some v) (Some k) (tp_add tp (esc_sec (py_str k) tp)) (anc ++ [(v, k)])%list))
         | _ => kids
         end
       else
         gapp (gfirst (sg_next v (mkctx (x_par c) (x_ref c) false tp anc)) (fun f =>
                 match f with
-                | Some _ => gone (coords v (x_par c) (x_ref c) tp anc)
+                | Some _ => gone (ncoords v (x_par c) (x_ref c) tp anc)
                 | None => gnil
                 end))
              (fun _ => kids)
@@ -608,7 +610,7 @@ Fixpoint trav (tf : nat) (last : bool) (sg_next : rnode -> ctx -> gen rnode) (v 
 
 (* ---- collectors (processor.py:1511-1830) ---- *)
 (* NodeCoords.unwrap_node_coords *)
-Fixpoint unw (v : rnode) : rnode :=
+Fixpoint unw (v : rval) : rval :=
   match v with
   | RCoords nd _ _ _ _ => unw nd
   | RList l => RList (map unw l)
@@ -616,7 +618,7 @@ Fixpoint unw (v : rnode) : rnode :=
   end.
 
 (* NodeCoords.deepest_node_coord *)
-Fixpoint deepest (v : rnode) : rnode :=
+Fixpoint deepest (v : rval) : rval :=
   match v with
   | RCoords (RCoords _ _ _ _ _ as inner) _ _ _ _ => deepest inner
   | _ => v
@@ -631,21 +633,21 @@ Fixpoint list_eqb {A} (f : A -> A -> bool) (a b : list A) : bool :=
   | _, _ => false
   end.
 
-Fixpoint node_eq (a b : node) {struct a} : bool :=
+Fixpoint pynode_eq (a b : node) {struct a} : bool :=
   match a, b with
   | NLeaf _ x, NLeaf _ y => py_eq x y
   | NMap _ k1, NMap _ k2 =>
       (fix go (l1 l2 : list (node * node)) : bool :=
          match l1, l2 with
          | [], [] => true
-         | (ka, va) :: r1, (kb, vb) :: r2 => py_eq (key_val ka) (key_val kb) && node_eq va vb && go r1 r2
+         | (ka, va) :: r1, (kb, vb) :: r2 => py_eq (key_val ka) (key_val kb) && pynode_eq va vb && go r1 r2
          | _, _ => false
          end) k1 k2
   | NSeq _ e1, NSeq _ e2 =>
       (fix go (l1 l2 : list node) : bool :=
          match l1, l2 with
          | [], [] => true
-         | x :: r1, y :: r2 => node_eq x y && go r1 r2
+         | x :: r1, y :: r2 => pynode_eq x y && go r1 r2
          | _, _ => false
          end) e1 e2
   | NSet _ e1, NSet _ e2 =>
@@ -655,32 +657,32 @@ Fixpoint node_eq (a b : node) {struct a} : bool :=
   end.
 
 (* == on unwrapped values; a Python list equals a loaded sequence elementwise *)
-Fixpoint veq (a b : rnode) {struct a} : bool :=
+Fixpoint veq (a b : rval) {struct a} : bool :=
   match a with
   | RNode (NSeq _ e1) =>
       match b with
-      | RNode nb => node_eq (match a with RNode n => n | _ => NLeaf (mkinfo 0 None false None) PNone end) nb
+      | RNode nb => pynode_eq (match a with RNode n => n | _ => NLeaf (mkinfo 0 None false None) PNone end) nb
       | RList l2 =>
-          (fix go (l1 : list node) (l2 : list rnode) : bool :=
+          (fix go (l1 : list node) (l2 : list rval) : bool :=
              match l1, l2 with
              | [], [] => true
-             | x :: r1, y :: r2 => (match y with RNode ny => node_eq x ny | _ => false end) && go r1 r2
+             | x :: r1, y :: r2 => (match y with RNode ny => pynode_eq x ny | _ => false end) && go r1 r2
              | _, _ => false
              end) e1 l2
       | _ => false
       end
-  | RNode na => match b with RNode nb => node_eq na nb | _ => false end
+  | RNode na => match b with RNode nb => pynode_eq na nb | _ => false end
   | RList l1 =>
       match b with
       | RList l2 =>
-          (fix go (l1 l2 : list rnode) : bool :=
+          (fix go (l1 l2 : list rval) : bool :=
              match l1, l2 with
              | [], [] => true
              | x :: r1, y :: r2 => veq x y && go r1 r2
              | _, _ => false
              end) l1 l2
       | RNode (NSeq _ e2) =>
-          (fix go (l1 : list rnode) (l2 : list node) : bool :=
+          (fix go (l1 : list rval) (l2 : list node) : bool :=
              match l1, l2 with
              | [], [] => true
              | x :: r1, y :: r2 => veq x (RNode y) && go r1 r2
@@ -693,11 +695,11 @@ Fixpoint veq (a b : rnode) {struct a} : bool :=
 
 (* entries of rem_data in _collector_subtraction *)
 Inductive rem :=
-  | RemVal (v : rnode)                 (* an unwrapped node *)
-  | RemPair (k : pyval) (v : rnode).   (* the plain dict {parentref: node} *)
+  | RemVal (v : rval)                 (* an unwrapped node *)
+  | RemPair (k : pyval) (v : rval).   (* the plain dict {parentref: node} *)
 
 (* lhs == rhs for an unwrapped lhs *)
-Definition rem_eq (lhs : rnode) (r : rem) : bool :=
+Definition rem_eq (lhs : rval) (r : rem) : bool :=
   match r with
   | RemVal v => veq lhs v
   | RemPair k x =>
@@ -716,7 +718,7 @@ Definition all_gen {A B} (g : gen A) (k : list A -> gen B) : gen B :=
   end.
 
 (* _collector_addition: what one right-hand result contributes *)
-Definition addition_items (c : ctx) (nc : rnode) : list rnode :=
+Definition addition_items (c : ctx) (nc : rval) : list rval :=
   match nc with
   | RCoords nd _ _ path _ =>
       if is_pylist nd then
@@ -725,7 +727,7 @@ Definition addition_items (c : ctx) (nc : rnode) : list rnode :=
                match e with
                | RCoords _ _ _ _ _ => e
                | _ => let zi := Z.of_nat i in
-                      coords e (Some nd) (Some (PInt zi)) (tp_add path (idx_text zi)) (x_anc c ++ [(nd, PInt zi)])%list
+                      ncoords e (Some nd) (Some (PInt zi)) (tp_add path (idx_text zi)) (x_anc c ++ [(nd, PInt zi)])%list
                end) (enumerate (elems nd))
       else [nc]
   | _ => [nc]
@@ -733,11 +735,11 @@ Definition addition_items (c : ctx) (nc : rnode) : list rnode :=
 
 (* deeply_unwrap_nodes of _collector_intersection (Python `set` never occurs
    in loaded data; CommentedSet is not a `set`) *)
-Definition inter_items (nc : rnode) : list rnode :=
+Definition inter_items (nc : rval) : list rval :=
   let u := unw nc in if is_pylist u then elems u else [u].
 
 (* get_del_nodes of _collector_subtraction *)
-Definition del_items (nc : rnode) : outcome (list rem) :=
+Definition del_items (nc : rval) : outcome (list rem) :=
   let u := unw nc in
   if is_pylist u then Ok (map RemVal (elems u))
   else match u with
@@ -788,8 +790,8 @@ Fixpoint sub_dict_scan (lhs_kvs : list (node * node)) (rf : option pyval) (rems 
   end.
 
 (* the loop over lhs_ncs: (updated_coords, rem_dels) *)
-Fixpoint sub_scan (rems : list rem) (lhs : list rnode) (updated : list rnode) (dels : list (nat * pyval))
-  : outcome (list rnode * list (nat * pyval)) :=
+Fixpoint sub_scan (rems : list rem) (lhs : list rval) (updated : list rval) (dels : list (nat * pyval))
+  : outcome (list rval * list (nat * pyval)) :=
   match lhs with
   | [] => Ok (updated, dels)
   | l :: rest =>
@@ -818,7 +820,7 @@ Fixpoint sub_scan (rems : list rem) (lhs : list rnode) (updated : list rnode) (d
   end.
 
 (* _collector_subtraction after rem_data is gathered *)
-Definition subtraction (rems : list rem) (lhs : list rnode) : gen rnode :=
+Definition subtraction (rems : list rem) (lhs : list rval) : gen rval :=
   match sub_scan rems lhs [] [] with
   | Raise e => gerr e
   | OutOfFuel => gfuel
@@ -838,8 +840,8 @@ Definition subtraction (rems : list rem) (lhs : list rnode) : gen rnode :=
       end
   end.
 
-Fixpoint peek_loop (rqp : ppath -> rnode -> ctx -> gen rnode) (rest : list pseg) (v : rnode) (c : ctx)
-         (ncs : list rnode) (k : list rnode -> gen rnode) : gen rnode :=
+Fixpoint peek_loop (rqp : ppath -> rval -> ctx -> gen rval) (rest : list pseg) (v : rval) (c : ctx)
+         (ncs : list rval) (k : list rval -> gen rval) : gen rval :=
   match rest with
   | [] => k ncs
   | ps :: r =>
@@ -866,8 +868,8 @@ Fixpoint peek_loop (rqp : ppath -> rnode -> ctx -> gen rnode) (rest : list pseg)
       end
   end.
 
-Definition by_collector (rqp : ppath -> rnode -> ctx -> gen rnode) (op : cop) (ps : pseg) (rest : list pseg)
-           (v : rnode) (c : ctx) : gen rnode :=
+Definition by_collector (rqp : ppath -> rval -> ctx -> gen rval) (op : cop) (ps : pseg) (rest : list pseg)
+           (v : rval) (c : ctx) : gen rval :=
   match op with
   | CNone =>
       all_gen (rqp (seg_sub ps) v c) (fun ncs =>
@@ -875,7 +877,7 @@ Definition by_collector (rqp : ppath -> rnode -> ctx -> gen rnode) (op : cop) (p
           match ncs with
           | [RCoords nd par _ path anc] =>
               if is_pylist nd then
-                map (fun ie => coords (snd ie) par (Some (PInt (Z.of_nat (fst ie)))) path anc) (enumerate (elems nd))
+                map (fun ie => ncoords (snd ie) par (Some (PInt (Z.of_nat (fst ie)))) path anc) (enumerate (elems nd))
               else ncs
           | _ => ncs
           end in
@@ -887,16 +889,16 @@ Definition by_collector (rqp : ppath -> rnode -> ctx -> gen rnode) (op : cop) (p
 Definition seg_type_at (segs : list pseg) (i : nat) : option segtype :=
   match nth_error segs i with Some ps => fst (seg_es ps) | None => None end.
 
-Definition unwrap_ctx (v : rnode) (c : ctx) : (rnode * ctx) :=
+Definition unwrap_ctx (v : rval) (c : ctx) : (rval * ctx) :=
   match v with
   | RCoords nd par rf path anc => (nd, mkctx par rf (x_tl c) (normalize_original path) anc)
   | _ => (v, c)
   end.
 
-Definition dispatch (self : rnode -> ctx -> gen rnode)                (* same segment, other data *)
-           (sg_next : rnode -> ctx -> gen rnode)                      (* next segment *)
-           (rqp : ppath -> rnode -> ctx -> gen rnode)                 (* _get_required_nodes(data, sub-path, 0) *)
-           (segs : list pseg) (i : nat) (v0 : rnode) (c0 : ctx) : gen rnode :=
+Definition dispatch (self : rval -> ctx -> gen rval)                (* same segment, other data *)
+           (sg_next : rval -> ctx -> gen rval)                      (* next segment *)
+           (rqp : ppath -> rval -> ctx -> gen rval)                 (* _get_required_nodes(data, sub-path, 0) *)
+           (segs : list pseg) (i : nat) (v0 : rval) (c0 : ctx) : gen rval :=
   match nth_error segs i with
   | None => gnil
   | Some ps =>
@@ -937,7 +939,7 @@ Definition creatable (uty : option segtype) : bool :=
 
 (* the missing-element branch of _get_optional_nodes (processor.py:2463-2618):
    the refusals are modelled here, the node-creating branches are [creator] *)
-Definition missing_element (segs : list pseg) (i : nat) (ps : pseg) (v : rnode) (c : ctx) : gen rnode :=
+Definition missing_element (segs : list pseg) (i : nat) (ps : pseg) (v : rval) (c : ctx) : gen rval :=
   let uty := fst (seg_us ps) in
   let a := snd (seg_es ps) in
   match v with
@@ -959,22 +961,22 @@ Definition missing_element (segs : list pseg) (i : nat) (ps : pseg) (v : rnode) 
 
 (* _get_nodes_by_path_segment for segment i, with fuel for the data dimension
    (key pass-through re-enters the dispatcher on the elements of a list) *)
-Fixpoint walk (sg_next : rnode -> ctx -> gen rnode) (rqp : ppath -> rnode -> ctx -> gen rnode)
-         (segs : list pseg) (i : nat) (vf : nat) (v : rnode) (c : ctx) {struct vf} : gen rnode :=
+Fixpoint walk (sg_next : rval -> ctx -> gen rval) (rqp : ppath -> rval -> ctx -> gen rval)
+         (segs : list pseg) (i : nat) (vf : nat) (v : rval) (c : ctx) {struct vf} : gen rval :=
   match vf with
   | O => gfuel
   | S vf' => dispatch (walk sg_next rqp segs i vf') sg_next rqp segs i v c
   end.
 
 (* one level of the drivers; [rec] evaluates strictly lighter (path, index) pairs *)
-Definition ev_body (rec : mode -> list pseg -> nat -> rnode -> ctx -> gen rnode)
-           (md : mode) (segs : list pseg) (i : nat) (v : rnode) (c : ctx) : gen rnode :=
-  let rqp := fun (p : ppath) (v : rnode) (c : ctx) =>
+Definition ev_body (rec : mode -> list pseg -> nat -> rval -> ctx -> gen rval)
+           (md : mode) (segs : list pseg) (i : nat) (v : rval) (c : ctx) : gen rval :=
+  let rqp := fun (p : ppath) (v : rval) (c : ctx) =>
                match p with
                | PFail e => gerr e
                | PPath s => rec MReq s 0 v c
                end in
-  let here := fun (v : rnode) (c : ctx) => walk (rec MSeg segs (S i)) rqp segs i (S (vsize v)) v c in
+  let here := fun (v : rval) (c : ctx) => walk (rec MSeg segs (S i)) rqp segs i (S (vsize v)) v c in
   match md with
   | MSeg => here v c
   | MReq =>
@@ -985,10 +987,10 @@ Definition ev_body (rec : mode -> list pseg -> nat -> rnode -> ctx -> gen rnode)
                | RCoords nd par rf path anc => rec MReq segs (S i) nd (mkctx par rf true path anc)
                | _ => gerr (PyCrash AttributeError)
                end)
-      else gone (coords v (x_par c) (x_ref c) (x_tp c) (x_anc c))
+      else gone (ncoords v (x_par c) (x_ref c) (x_tp c) (x_anc c))
   | MOpt =>
       match nth_error segs i with
-      | None => gone (coords v (x_par c) (x_ref c) (x_tp c) (x_anc c))
+      | None => gone (ncoords v (x_par c) (x_ref c) (x_tp c) (x_anc c))
       | Some ps =>
           let g := here v (mkctx (x_par c) (x_ref c) true (x_tp c) (x_anc c)) in
           let found :=
@@ -1007,7 +1009,7 @@ Definition ev_body (rec : mode -> list pseg -> nat -> rnode -> ctx -> gen rnode)
       end
   end.
 
-Fixpoint ev (pf : nat) (md : mode) (segs : list pseg) (i : nat) (v : rnode) (c : ctx) {struct pf} : gen rnode :=
+Fixpoint ev (pf : nat) (md : mode) (segs : list pseg) (i : nat) (v : rval) (c : ctx) {struct pf} : gen rval :=
   match pf with
   | O => gfuel
   | S pf' => ev_body (ev pf') md segs i v c
@@ -1018,7 +1020,7 @@ Definition root_ctx : ctx := mkctx None None true "" [].
 Definition fuel_for (p : ppath) : nat := S (pweight p).
 
 (* Processor.get_nodes(path, mustexist=True) *)
-Definition get_required (p : ppath) (d : node) : gen rnode :=
+Definition get_required (p : ppath) (d : node) : gen rval :=
   match d with
   | NLeaf _ PNone => gnil                      (* "Refusing to get nodes from a null document" *)
   | _ =>
@@ -1033,7 +1035,7 @@ Definition get_required (p : ppath) (d : node) : gen rnode :=
   end.
 
 (* Processor.get_nodes(path, mustexist=False) *)
-Definition get_optional (p : ppath) (d : node) : gen rnode :=
+Definition get_optional (p : ppath) (d : node) : gen rval :=
   match d with
   | NLeaf _ PNone => gnil
   | _ =>
